@@ -58,6 +58,7 @@ func main() {
 	timers := flag.Bool("timers", false, "rewrite <-X.C and <-time.After(d)")
 	maprange := flag.Bool("maprange", false, "rewrite range over maps to smap.Keys")
 	yield := flag.Bool("yield", false, "insert syield.Y before every statement")
+	nochanF := flag.Bool("nochan", false, "refuse blocking channel operations (Engine A)")
 	flag.Parse()
 	if *root == "" || *pkgs == "" {
 		die("need -root and -pkgs")
@@ -77,6 +78,7 @@ func main() {
 	}
 	total := map[string]int{}
 	for _, pkg := range strings.Split(*pkgs, ",") {
+		nochan = *nochanF
 		doPackage(pkg, imap, *timers, *maprange, *yield, total)
 	}
 	keys := make([]string, 0, len(total))
@@ -88,6 +90,8 @@ func main() {
 		fmt.Printf("rewrite: %s=%d\n", k, total[k])
 	}
 }
+
+var nochan bool
 
 func doPackage(dir string, imap map[string]string, timers, maprange, yield bool, total map[string]int) {
 	ctx := build.Default
@@ -128,7 +132,7 @@ func doPackage(dir string, imap map[string]string, timers, maprange, yield bool,
 		die("no Go files in %s", dir)
 	}
 	var info *types.Info
-	if maprange || timers {
+	if maprange || timers || nochan {
 		info = &types.Info{Types: map[ast.Expr]types.TypeAndValue{}}
 		conf := types.Config{
 			Importer:  importer.ForCompiler(fset, "source", nil),
@@ -284,6 +288,67 @@ func doPackage(dir string, imap map[string]string, timers, maprange, yield bool,
 					edits = append(edits, edit{off(x.Pos()), off(x.X.Pos()), timeName + ".Recv("})
 					edits = append(edits, edit{off(x.End()), off(x.End()), ")"})
 					total["timer-recv"]++
+				}
+				return true
+			})
+		}
+
+		// 2b. Engine A cannot simulate a goroutine that blocks on a channel of the code under
+		// test (the hand-off would never come back): refuse, instead of hanging or guessing.
+		// Non-blocking operations (select with a default clause), close, len and cap are fine:
+		// they are single real steps.
+		if nochan && info != nil {
+			isTC := func(e ast.Expr) bool {
+				tv, ok := info.Types[e]
+				return ok && isTimeChan(tv.Type)
+			}
+			isChan := func(e ast.Expr) bool {
+				tv, ok := info.Types[e]
+				if !ok || tv.Type == nil {
+					return false
+				}
+				_, ok = tv.Type.Underlying().(*types.Chan)
+				return ok
+			}
+			inSelect := map[ast.Node]bool{}
+			ast.Inspect(f, func(n ast.Node) bool {
+				switch x := n.(type) {
+				case *ast.SelectStmt:
+					hasDefault, other := false, false
+					for _, c := range x.Body.List {
+						cc := c.(*ast.CommClause)
+						if cc.Comm == nil {
+							hasDefault = true
+							continue
+						}
+						ast.Inspect(cc.Comm, func(m ast.Node) bool {
+							if m != nil {
+								inSelect[m] = true
+							}
+							if u, ok := m.(*ast.UnaryExpr); ok && u.Op == token.ARROW && !isTC(u.X) {
+								other = true
+							}
+							if _, ok := m.(*ast.SendStmt); ok {
+								other = true
+							}
+							return true
+						})
+					}
+					if other && !hasDefault {
+						die("%s: a select that can block on a channel of the code under test is not supported by Engine A (only timer channels and non-blocking selects are)", fset.Position(x.Pos()))
+					}
+				case *ast.SendStmt:
+					if !inSelect[x] {
+						die("%s: a blocking channel send in the code under test is not supported by Engine A", fset.Position(x.Pos()))
+					}
+				case *ast.UnaryExpr:
+					if x.Op == token.ARROW && !inSelect[x] && !isTC(x.X) {
+						die("%s: a blocking channel receive in the code under test is not supported by Engine A", fset.Position(x.Pos()))
+					}
+				case *ast.RangeStmt:
+					if isChan(x.X) && !isTC(x.X) {
+						die("%s: ranging over a channel of the code under test is not supported by Engine A", fset.Position(x.Pos()))
+					}
 				}
 				return true
 			})
